@@ -10,7 +10,7 @@ from .sharing import sharing as _sharing
 from .impl1 import meta_repr
 
 from .core import nrs, rs
-from .impl1 import REFUSED, Store, arr, fl, mk_binning, np_dtype, num_of
+from .impl1 import REFUSED, Store, arr, carried, fl, mk_binning, np_dtype, num_of
 
 warnings.simplefilter("ignore")
 
@@ -187,10 +187,10 @@ def step(s: Store, op: dict, log: list):
         if name == "merge":
             x = s.get(op["h"])
             kw = {}
-            if op.get("amount") is not None:
-                kw["amount"] = op["amount"]
+            if op.get("amount") is not None:     # "ak" / "mk": the numeric type carrying the amount / the threshold
+                kw["amount"] = carried(op["amount"], op["ak"]) if op.get("ak") else op["amount"]
             if op.get("min_freq") is not None:
-                kw["min_frequency"] = fl(op["min_freq"])
+                kw["min_frequency"] = carried(op["min_freq"], op["mk"]) if op.get("mk") else fl(op["min_freq"])
             if op.get("axis") is not None:
                 kw["axis"] = op["axis"]
             r = x.merge_bins(inplace=op.get("inplace", False), **kw)
